@@ -22,6 +22,9 @@ if [ -n "$VERIF_REPO" ]; then
   sed "s#=> /repo/luahelper-lsp#=> $VERIF_REPO/luahelper-lsp#" go.mod > .build/$T/go.mod
   cp go.sum .build/$T/go.sum
   go build -modfile=$H/.build/$T/go.mod -tags verif -overlay $H/.build/$T/overlay.json -o bin/vcheck-$T ./cmd/vcheck
+  # the same program with Go's race detector, used free-running by the race pass of C09/C10
+  CGO_ENABLED=1 go build -race -modfile=$H/.build/$T/go.mod -tags verif -overlay $H/.build/$T/overlay.json -o bin/vcheck-$T-race ./cmd/vcheck
 else
   go build -tags verif -overlay $H/.build/overlay.json -o bin/vcheck ./cmd/vcheck
+  CGO_ENABLED=1 go build -race -tags verif -overlay $H/.build/overlay.json -o bin/vcheck-race ./cmd/vcheck
 fi
